@@ -155,6 +155,11 @@ func StatePredicates(prefix string) {
 	// C09 / C07: used together with the fixed-point probe: nothing can move, every target is connected, yet
 	// some accepted transaction is not final
 	verifrt.Region(prefix+"bad:stranded", !allTerminal && connected)
+	// C09 with work sets (WithWork): no request is pending in any controller, yet (first sentence) re-examining a record
+	// changed something, or (second sentence) every target is connected and an accepted transaction is not final
+	verifrt.Region(prefix+"bad:c09-idle-not-fixed-point", WithWork && S.W.IdleMoved)
+	verifrt.Region(prefix+"bad:c09-idle-not-final", WithWork && workEmpty() && !allTerminal && connected)
+	verifrt.Region(prefix+"reach:idle-all-terminal", WithWork && workEmpty() && allTerminal && anyTx && S.Txs[NX-1].Exists)
 	// C07 (with the fixed-point probe): at quiescence, with every target connected and at most Budget process stops /
 	// faults in the history, each change transaction has the outcome it would have had without them:
 	// APPLIED if every named target's model accepts it, FAILED otherwise
